@@ -483,6 +483,11 @@ class Authorization(Endpoint):
                     if _req:
                         # One time usage
                         del context.par_db[_request_uri]
+                        if not isinstance(_req, Message):
+                            # stored with the end of its lifetime
+                            if _req["expires_at"] < utc_time_sans_frac():
+                                raise ValueError("Got a request_uri that has expired")
+                            _req = _req["request"]
                         # Only the client that pushed the request can use it
                         if _req.get("client_id") != client_id:
                             raise ValueError("Got a request_uri that belongs to another client")
